@@ -127,7 +127,7 @@ impl Point {
         }
         // uncompressed Point
         else {
-            if b.len() != 65 {
+            if flag != 0x04 || b.len() != 65 {
                 return Err(Sm2Error::InvalidPublic);
             }
             let x_raw = u256_from_be_bytes(&b[1..33]);
